@@ -922,6 +922,8 @@ func (c *Conn) readLoop() {
 func (c *Conn) dispatch(fr *FrameHeader) bool {
 	r, ok := c.loadReq(fr.Stream())
 	if !ok {
+		c.skipHeaders(fr)
+
 		return false
 	}
 
@@ -929,6 +931,7 @@ func (c *Conn) dispatch(fr *FrameHeader) bool {
 	// nowhere to put this frame. Drop the stream and carry on.
 	if !r.acquireFor(c, fr.Stream()) {
 		c.dequeueReq(fr.Stream())
+		c.skipHeaders(fr)
 
 		return false
 	}
@@ -971,6 +974,48 @@ func (c *Conn) dispatch(fr *FrameHeader) bool {
 	}
 
 	return err != nil && errors.Is(err, FlowControlError)
+}
+
+// skipHeaders runs a header block nobody is waiting for through the HPACK
+// decoder. The server's encoder cannot know that the request has been given
+// up: a timeout, a cancel or a reset crosses its response on the wire. The
+// entries such a block adds to the dynamic table are what the blocks after it,
+// on every other stream, refer to, so dropping it undecoded would leave the
+// connection's compression context out of step with the server's for good
+// (RFC 7540 4.3).
+func (c *Conn) skipHeaders(fr *FrameHeader) {
+	if fr.Type() != FrameHeaders && fr.Type() != FrameContinuation {
+		return
+	}
+
+	if fr.Type() == FrameHeaders {
+		c.hdrBlock = c.hdrBlock[:0]
+	}
+
+	c.hdrBlock = append(c.hdrBlock, fr.Body().(FrameWithHeaders).Headers()...)
+
+	if !fr.Flags().Has(FlagEndHeaders) {
+		return
+	}
+
+	hf := AcquireHeaderField()
+	defer ReleaseHeaderField(hf)
+
+	b, fields := c.hdrBlock, 0
+
+	for len(b) > 0 {
+		var err error
+
+		b, err = c.dec.nextField(hf, true, fields, b)
+		if err != nil {
+			break
+		}
+
+		fields++
+	}
+
+	c.hdrBlock = c.hdrBlock[:0]
+	c.hdrEndStream = 0
 }
 
 // errGoAwayUnprocessed resolves a request on a stream above the last one the
